@@ -27,7 +27,7 @@ ASSUMPTIONS = [
     "the agent keeps a 150 s window (RFC 3414 3.2 7b) on engine boots and time; boots change on reboot and engine time restarts at 0",
     "after a refused discovery reply the client must still be usable: the next request starts with a new probe",
 ]
-REQUIRED_CLASSES = {"advance>150": 0.30, "reboot": 0.08, "disco_bad": 0.10, "auth": 0.50, "poller": 0.015, "disco_other_ctx": 0.05}
+REQUIRED_CLASSES = {"advance>150": 0.30, "reboot": 0.25, "disco_bad": 0.10, "auth": 0.50, "poller": 0.015, "disco_other_ctx": 0.05}
 
 SCALAR = (1, 3, 6, 1, 2, 1, 1, 5, 0)
 COL = (1, 3, 6, 1, 2, 1, 2, 2, 1, 2)
@@ -214,9 +214,6 @@ STEP = st.one_of(
 def cases(draw, max_steps=12):
     proto = draw(st.sampled_from(vworld.V3_PROTOS + vworld.V3_PROTOS[1:]))
     steps = draw(st.lists(STEP, min_size=2, max_size=max_steps))
-    if draw(st.integers(0, 3)) != 0:
-        # three histories in four have no reboot, so that the search is not stopped by the known reboot finding
-        steps = [s for s in steps if s[0] != "reboot"] or [["req", "get"], ["adv", 151]]
     if draw(st.integers(0, 19)) == 0:
         n, dt = draw(st.sampled_from([(330, 0.5), (200, 0.9), (140, 1.3)]))
         steps = steps[:3] + [["poll", n, dt]] + steps[3:5]
@@ -232,6 +229,6 @@ def cases(draw, max_steps=12):
 
 
 def units(tier, seed):
-    n, m = (100, 12) if tier == "quick" else (1200, 30)
+    n, m = (70, 12) if tier == "quick" else (1200, 30)
     return [Unit("hyp-%d" % sh, hypothesis_unit, strategy=cases(max_steps=m), examples=n, seed=shard_seed(seed, sh),
                  label="hyp-%d" % sh) for sh in range(16)]
